@@ -9,6 +9,7 @@ Extra op (driver only): `load <dump>` replaces the state by a heap dump printed 
 import Garnish.Store.BasicOptimize
 import Garnish.Spec.GraphIso
 import Garnish.Lemmas.OptimizeWF
+import Garnish.Lemmas.OptimizeWFv
 import Garnish.Driver.ValIO
 namespace Garnish.Driver.Opt
 open Garnish Gen Garnish.Proto Garnish.BasicOpt Garnish.Driver
@@ -180,9 +181,7 @@ def buildTerm (hs : Array Nat) : Term → Store → Outcome (Store × Nat)
       | _ => bad
     else if h = "l" then do
       let (s, addrs) ← buildTerms hs rest s
-      let (s, li) ← s.startList addrs.length
-      let s ← addrs.foldlM (fun s a => s.addToList li a) s
-      s.endList li
+      s.buildList addrs
     else if h = "syl" then
       match rest with
       | t :: more@(_ :: _) => do
@@ -398,7 +397,7 @@ def runOp (n : Nat) (st : St) (op : String) : Except String (St × Bool) :=
         let m := String.intercalate "," (mapped.map toString)
         let iso := isoVerdict st.s s (optPairs st.s s roots mapped)
         -- hypotheses of `C19_optimize_preserves` on the state before the call
-        let wfv := if wf st.s && rootsOK st.s roots then "1" else "0"
+        let wfv := if (wf st.s && rootsOK st.s roots) || (wfv st.s && rootsOKv st.s roots) then "1" else "0"
         let rec_ := s!"{n}:opt ok M=[{m}] {dump s} BEFORE" ++ "{" ++ before ++ "} AFTER{" ++ after ++ "}" ++ s!" iso={iso} wf={wfv}"
         .ok ({ st with s := s, hs := hs, out := st.out ++ [rec_] }, true))
   | "clone" =>
